@@ -91,8 +91,16 @@ Definition is_slice (t : vtype) : bool := match t with TSlice _ => true | _ => f
 (* Option.emptyValue / empty *)
 Definition empty_value (t : vtype) : value :=
   match t with TMap _ _ => VMap false [] | _ => zero_value t end.
+(* an option added with Group.AddOption has no struct field (empty field name); it is
+   bound through a pointer that cannot be replaced, so emptying it zeroes the pointee *)
+Definition opt_is_added (o : opt) : bool := negb (nonempty (o_field o)).
+Definition opt_empty_value (o : opt) : value :=
+  match o_ty o with
+  | TPtr k => if opt_is_added o then VPtr (Some (zero_kind k)) else empty_value (o_ty o)
+  | t => empty_value t
+  end.
 Definition opt_empty (o : opt) (r : rt) : rt :=
-  if is_func (o_ty o) then r else set_val r (o_fid o) (empty_value (o_ty o)).
+  if is_func (o_ty o) then r else set_val r (o_fid o) (opt_empty_value o).
 
 Section Ops.
   Variable orc : oracles.
